@@ -51,7 +51,10 @@ cache_linear_solution, root solver {runonce, lnbgs, lnbj, krylov, direct}.  Call
 Besides values, a solver that reports non-convergence ONLY in the enabled twin is a violation (observable: failure
 message, wasted iterations, AnalysisError under err_on_non_converge=True); such failures are classified by the seed that
 was active (`dead-seed`: the seed has no counterpart in the jacobian being computed; `live-seed:mixed-stack` /
-`live-seed:uniform-stack`) so that each mechanism has its own key.
+`live-seed:mixed-stack-sibling` / `live-seed:uniform-stack`, see _fail_class) so that each mechanism has its own key.
+A linear solver's failure report whose last monitored residual is at round-off level (FLOOR_REL / FLOOR_ABS below) is
+NOT such an observation: the generators ask for tolerances of 1e-13 .. 1e-15, which double precision does not guarantee;
+these reports are counted (`obs:roundoff-floor-failure-reports-not-judged:*`) and not judged.
 
 thorough tier additionally runs a few disabled twins in a subprocess with the documented switch
 OPENMDAO_NO_RELEVANCE=1 (omv/kit/c24_child.py) and requires the in-process way of disabling to agree with it.
@@ -102,7 +105,11 @@ REQUIRED_COUNTERS = ['obs:arrow-twins', 'obs:arrow-computes:bidirectional', 'obs
                      'obs:opt-pre-post-grouping', 'obs:opt-linear-constraint', 'obs:opt-cycle',
                      'cell:mode=fwd', 'cell:mode=rev', 'cell:ln=generated', 'cell:ln=runonce', 'cell:ln=lnbgs',
                      'cell:ln=lnbj', 'cell:ln=krylov', 'cell:ln=direct']
-ASSUMPTIONS = ['a solver failure reported only by the relevance-enabled twin counts as an observable difference',
+ASSUMPTIONS = ['a solver failure reported only by the relevance-enabled twin counts as an observable difference - unless '
+               'it is a linear solver whose last monitored residual is at the round-off floor of the admitted systems '
+               '(relative <= n*eps*cond = 80*2.2e-16*1e6 ~ 2e-8, or absolute <= 1e-10): the requested tolerances '
+               '(1e-13..1e-15) are below what double precision guarantees, so which twin lands above them is an '
+               'accident of operation order; such reports are counted, not judged',
                'the relevance-disabled twin is the baseline: `_no_relevance=True` while the twin is built, set up and '
                'used; verified per twin (pruning counters stay 0, model._relevance._active is False)',
                'R (omv/ref/flatmodel.py) is exact (re-validated by complex step per case); cases where the DISABLED '
@@ -167,6 +174,17 @@ def run_shard(shard, acc):
 
 
 def run_case(case, acc):
+    n0 = list(_FLOOR_REPORTS)
+    try:
+        _run_case(case, acc)
+    finally:
+        if _FLOOR_REPORTS[0] > n0[0]:
+            acc.count('obs:roundoff-floor-failure-reports-not-judged:enabled-twin', _FLOOR_REPORTS[0] - n0[0])
+        if _FLOOR_REPORTS[1] > n0[1]:
+            acc.count('obs:roundoff-floor-failure-reports-not-judged:disabled-twin', _FLOOR_REPORTS[1] - n0[1])
+
+
+def _run_case(case, acc):
     if case['kind'] == 'totals':
         _case_totals(case, acc)
     elif case['kind'] == 'opt':
@@ -269,6 +287,8 @@ class RelMon:
             if not r:
                 mon.var_pruned += 1
             return r
+        is_relevant_system._omv_orig = self._o_sys      # for monitors that must not disturb the pruning counters
+        is_relevant._omv_orig = self._o_var
         Relevance.is_relevant_system = is_relevant_system
         Relevance.is_relevant = is_relevant
         return self
@@ -281,36 +301,103 @@ class RelMon:
         return False
 
 
+# A LINEAR solver's failure report is an observation of non-convergence only if the residual it last monitored
+# (Solver._mpi_print, called every iteration whatever iprint is) is above the round-off floor of the systems the
+# generators admit: a backward-stable solution of A x = b has |b - A x| <~ n eps |A| |x| <= n eps cond(A) |b|
+# = 80 * 2.2e-16 * 1e6 ~ 2e-8 |b| (n <= 80 unknowns, cond < 1e6 guard).  The harness asks the solvers for
+# atol = rtol = 1e-13 .. 1e-15, i.e. BELOW what double precision guarantees once |x| >> |b| (e.g. |x| = 150 |b|
+# -> |b - A x| ~ 4e-14 > 1e-14) or at 1e-15 even for |x| ~ 5 |b| (SciPy's gmres then stops at its "lucky breakdown"
+# with a true residual of 1.1e-15 .. 1.8e-15 and reports failure): whether the last few bits land above or below
+# such a tolerance depends on the order of the floating-point operations, which legitimately differs between the
+# twins (the pruned twin multiplies fewer blocks; its relative tolerance refers to a smaller initial residual).
+# The non-convergence relevance pruning can CAUSE (convergence norm sees entries nobody solves for) leaves residuals
+# of the size of the seed / of the transferred derivative values, many orders above this floor.
+# ScipyKrylov monitors gmres' own estimate |r|/|b| as `abs_res` (and that divided by its first value as `rel_res`);
+# block solvers monitor |A x - b| and |A x - b| / |initial residual|.
+FLOOR_REL = 2e-8
+FLOOR_ABS = 1e-10       # |b| is a unit seed or a derivative value >= ~1e-3 in these models; 1e-10 is >= 1e3 * atol
+_FLOOR_REPORTS = [0, 0]     # floor-level reports not judged: [relevance-enabled twins, disabled twins]
+
+
 class SeedFailureMonitor(FailureMonitor):
-    """FailureMonitor that also records the derivative seed variable(s) active when a solver reported failure."""
+    """FailureMonitor that also records the derivative seed variable(s) active when a solver reported failure.
+    mon.failures: (solver class, message, seeds, mixed, full seeds, in-coloring, irrelevant-only residual)
+      mixed = 'below'   : below the failing solver's system there is a group whose linear solver switches relevance
+                          off (DirectSolver)
+              'sibling' : no such group below, but elsewhere in the model there is one that takes part in the
+                          current solve (relevant system for the active seed) - its assembled jacobian / its inner
+                          solve produces derivative values for variables that are irrelevant for the active seed,
+                          and the transfers carry them into the failing solver's right-hand side
+              False     : neither.
+      irrelevant-only residual (block solvers only, else None): True if the part of the residual A x - rhs that lives
+          in variables RELEVANT for the active seed is <= 1e-8 of the whole residual, i.e. what has not converged are
+          only entries of variables relevance declared irrelevant.
+    mon.floor_failures: linear-solver reports whose last monitored residual is at round-off level (see FLOOR_REL)."""
+
+    def __init__(self):
+        super().__init__()
+        self.floor_failures = []
 
     def __enter__(self):
-        from openmdao.solvers.solver import Solver
+        from openmdao.solvers.solver import Solver, LinearSolver, BlockLinearSolver
         self._cls = Solver
         self._orig = Solver.__dict__['report_failure']
+        self._orig_print = Solver.__dict__['_mpi_print']
         self._mixed = {}
+        self._last = {}
         mon = self
+
+        def _mpi_print(slf, iteration, abs_res, rel_res):
+            mon._last[id(slf)] = (float(abs_res), float(rel_res))
+            return mon._orig_print(slf, iteration, abs_res, rel_res)
+
+        def _rel_off_groups(root):
+            from openmdao.core.group import Group
+            out = []
+            for g in root.system_iter(include_self=True, recurse=True, typ=Group):
+                ls = g._linear_solver
+                if ls is not None and not ls.use_relevance():
+                    out.append(g.pathname)
+            return out
 
         def report_failure(slf, msg):
             seeds = None
             mixed = None
+            irr_only = None
             try:
                 sys_ = slf._system()
                 sv = sys_._problem_meta.get('seed_vars')
                 seeds = tuple(sorted(sv)) if sv else None
-                mixed = mon._mixed.get(sys_.pathname)
-                if mixed is None:
-                    # does the failing solver's system contain a group whose linear solver switches relevance off?
-                    from openmdao.core.group import Group
-                    mixed = False
-                    for g in sys_.system_iter(include_self=False, recurse=True, typ=Group):
-                        ls = g._linear_solver
-                        if ls is not None and not ls.use_relevance():
-                            mixed = True
+                if 'groups' not in mon._mixed:
+                    mon._mixed['groups'] = _rel_off_groups(sys_._problem_meta['model_ref']())
+                pre = sys_.pathname + '.' if sys_.pathname else ''
+                rel = sys_._relevance
+                relsys = getattr(type(rel).is_relevant_system, '_omv_orig', type(rel).is_relevant_system)
+                relvar = getattr(type(rel).is_relevant, '_omv_orig', type(rel).is_relevant)
+                mixed = False
+                for gp in mon._mixed['groups']:
+                    if gp != sys_.pathname and gp.startswith(pre):
+                        mixed = 'below'
+                        break
+                if not mixed:
+                    for gp in mon._mixed['groups']:
+                        if gp and gp != sys_.pathname and not sys_.pathname.startswith(gp + '.') and relsys(rel, gp):
+                            mixed = 'sibling'
                             break
-                    mon._mixed[sys_.pathname] = mixed
+                if isinstance(slf, BlockLinearSolver) and slf._rhs_vec is not None:
+                    vec = sys_._dresiduals if slf._mode == 'fwd' else sys_._doutputs
+                    r = vec.asarray() - slf._rhs_vec
+                    rr = 0.0
+                    for n in vec._views:
+                        if relvar(rel, n):
+                            a, b = vec.get_range(n)
+                            rr += float(np.sum(np.abs(r[a:b]) ** 2))
+                    tot = float(np.sum(np.abs(r) ** 2))
+                    irr_only = bool(tot > 0.0 and rr <= 1e-16 * tot)
             except Exception:
-                pass
+                if os.environ.get('OMV_DEBUG'):
+                    import traceback
+                    traceback.print_exc()
             full = None
             try:
                 full = slf._system()._relevance.get_full_seeds()
@@ -323,10 +410,25 @@ class SeedFailureMonitor(FailureMonitor):
                 incol = slf._system()._problem_meta.get('coloring_randgen') is not None
             except Exception:
                 pass
-            mon.failures.append((type(slf).__name__, msg, seeds, mixed, full, incol))
+            last = mon._last.get(id(slf))
+            rec = (type(slf).__name__, msg, seeds, mixed, full, incol, irr_only)
+            if isinstance(slf, LinearSolver) and last is not None and \
+                    (last[1] <= FLOOR_REL or last[0] <= FLOOR_ABS):
+                mon.floor_failures.append(rec + (last,))
+                try:
+                    _FLOOR_REPORTS[0 if slf._system()._relevance._active else 1] += 1
+                except Exception:
+                    pass
+            else:
+                mon.failures.append(rec)
             return mon._orig(slf, msg)
         Solver.report_failure = report_failure
+        Solver._mpi_print = _mpi_print
         return self
+
+    def __exit__(self, *a):
+        self._cls._mpi_print = self._orig_print
+        return super().__exit__(*a)
 
 
 def _fail_class(failures, src2spec, dep):
@@ -338,6 +440,10 @@ def _fail_class(failures, src2spec, dep):
       dead-seed               every failure is a dead-seed failure
       live-seed:mixed-stack   ... otherwise, and below each failing solver there is a group whose linear solver
                               switches relevance off (DirectSolver)
+      live-seed:mixed-stack-sibling   ... otherwise, and for each failing solver such a group exists below it or
+                              elsewhere in the model (taking part in the solve for the active seed), and - where the
+                              monitor can see the residual (block solvers) - what did not converge are only entries
+                              of variables that are irrelevant for the active seed
       live-seed:uniform-stack neither."""
     def dead(f):
         seeds, full = f[2], f[4]
@@ -362,8 +468,10 @@ def _fail_class(failures, src2spec, dep):
     live = [f for f in failures if not dead(f)]
     if not live:
         return 'dead-seed'
-    if all(f[3] for f in live):
+    if all(f[3] == 'below' or f[3] is True for f in live):
         return 'live-seed:mixed-stack'
+    if all(f[3] and (f[3] != 'sibling' or len(f) < 7 or f[6] is not False) for f in live):
+        return 'live-seed:mixed-stack-sibling'
     return 'live-seed:uniform-stack'
 
 
